@@ -41,6 +41,7 @@ type zzClient struct {
 	answer   bool
 	written  int
 	ctx      context.Context
+	regSeq   *uint32 // Observe value of the registration answer (default 2)
 }
 
 func (c *zzClient) Context() context.Context { return c.ctx }
@@ -53,7 +54,11 @@ func (c *zzClient) WriteMessage(req *pool.Message) error {
 		resp := pool.NewMessage(c.ctx)
 		resp.SetCode(c.respCode)
 		resp.SetToken(req.Token())
-		resp.SetObserve(2)
+		if c.regSeq != nil {
+			resp.SetObserve(*c.regSeq)
+		} else {
+			resp.SetObserve(2)
+		}
 		c.h.Handle(responsewriter.New(pool.NewMessage(c.ctx), c), resp)
 	}
 	return nil
@@ -182,6 +187,50 @@ func zzC08_routing() {
 	default:
 		symCover("to-nobody")
 		symAssert(callsA == 0 && callsB == 0 && nextCalls == 1, "a notification with an unknown token reaches no observation callback")
+	}
+}
+
+// the registration answer is the first accepted notification: what follows is judged against its sequence number
+// and arrival time (a copy of the answer, or an older notification it overtook, is not delivered again)
+func zzC08_first() {
+	s0 := symU32("answer-seq")
+	symAssume(s0 <= 0xffffff)
+	cc := &zzClient{ctx: context.Background(), answer: true, respCode: codes.Content, regSeq: &s0}
+	h := NewHandler(cc, func(w *responsewriter.ResponseWriter[*zzClient], r *pool.Message) {},
+		func(req *pool.Message) (*pool.Message, error) {
+			resp := pool.NewMessage(context.Background())
+			resp.SetCode(codes.Content)
+			resp.SetToken(req.Token())
+			return resp, nil
+		})
+	cc.h = h
+	t0, t1 := symI64("t0"), symI64("t1")
+	symAssume(t0 > 1<<40 && t0 <= t1 && t1 < 1<<60)
+	symSetNow(time.Unix(0, t0))
+	tok := message.Token{0xA1, 0xA2}
+	calls := 0
+	req := pool.NewMessage(context.Background())
+	req.SetCode(codes.GET)
+	req.SetToken(tok)
+	req.SetObserve(0)
+	_, err := h.NewObservation(req, func(r *pool.Message) { calls++ })
+	symAssert(err == nil, "registration succeeds")
+	if err != nil {
+		return
+	}
+	symAssert(calls == 1, "the registration answer is delivered to the callback once")
+	calls = 0
+	s1 := symU32("seq")
+	symAssume(s1 <= 0xffffff)
+	symSetNow(time.Unix(0, t1))
+	h.Handle(responsewriter.New(pool.NewMessage(cc.ctx), cc), zzNotification(tok, true, s1))
+	symObserve("calls", calls)
+	if zzFresh(s0, s1, t0, t1) {
+		symCover("fresh-after-answer")
+		symAssert(calls == 1, "a notification fresher than the registration answer reaches the callback")
+	} else {
+		symCover("stale-after-answer")
+		symAssert(calls == 0, "a copy of the registration answer or an older notification does not reach the callback")
 	}
 }
 
